@@ -50,7 +50,7 @@ theorem challenge_read_eq {rest buf : Bytes} (h : rest <:+ buf) :
   | some x =>
     obtain ⟨cid, r1⟩ := x
     have hs1 : r1 <:+ buf := (readU_suffix h1).trans h
-    simp only [rdRes, Exec.call_ok, Exec.bind_val', id, read_bytes_eq hs1,
+    simp only [rdRes, Exec.callFrom_ok, Exec.bind_val', id, read_bytes_eq hs1,
       show Src.renetcode.NETCODE_USER_DATA_BYTES = C.NETCODE_USER_DATA_BYTES from rfl]
     cases h2 : readN C.NETCODE_USER_DATA_BYTES r1 with
     | none => rfl
@@ -58,20 +58,34 @@ theorem challenge_read_eq {rest buf : Bytes} (h : rest <:+ buf) :
 
 theorem challenge_write_eq {w : Wr} {tail : List Nat} (h : WrOk w tail) (t : Netcode.ChallengeToken) :
     ChallengeToken.write (reprCT t) (wcur w tail) =
-      match writeCT t w with
-      | some w' => .ok (wcur w' (tail.drop (8 + t.userData.length)), ())
-      | none => .err .opaque := by
-  unfold ChallengeToken.write writeCT
+      match w.writeAll (leBytes t.clientId 8) with
+      | none => .err (.opaque, wfull w tail (leBytes t.clientId 8))
+      | some w1 =>
+        match w1.writeAll t.userData with
+        | none => .err (.opaque, wfull w1 (tail.drop 8) t.userData)
+        | some w' => .ok (wcur w' (tail.drop (8 + t.userData.length)), ()) := by
+  unfold ChallengeToken.write
   simp only [reprCT, to_le_bytes64, Exec.bind_eq, Exec.pure_eq, (wcur_write_all h _).1]
   cases h1 : w.writeAll (leBytes t.clientId 8) with
   | none => rfl
   | some w1 =>
     have hok1 := (wcur_write_all h (leBytes t.clientId 8)).2 w1 h1
-    simp only [Exec.call_ok, Exec.bind_val', (wcur_write_all hok1 _).1]
+    rw [leBytes_length] at hok1
+    simp only [Exec.callFrom_ok, Exec.bind_val', leBytes_length, (wcur_write_all hok1 _).1]
     cases h2 : w1.writeAll t.userData with
     | none => rfl
     | some w2 =>
-      simp only [Exec.call_ok, Exec.bind_val', Exec.run_val, List.drop_drop, leBytes_length]
+      simp only [Exec.callFrom_ok, Exec.bind_val', Exec.run_val, List.drop_drop]
+
+theorem challenge_write_ok {w : Wr} {tail : List Nat} (h : WrOk w tail) (t : Netcode.ChallengeToken) :
+    (∃ e, ChallengeToken.write (reprCT t) (wcur w tail) = .err e) ↔ writeCT t w = none := by
+  rw [challenge_write_eq h t]
+  unfold writeCT
+  cases w.writeAll (leBytes t.clientId 8) with
+  | none => simp
+  | some w1 =>
+    simp only
+    cases w1.writeAll t.userData <;> simp
 
 theorem challenge_new_eq {ε : Type} (cid : Nat) (ud : Bytes) :
     (ChallengeToken.new cid (toNats ud) : Res ε SChallengeToken) = .ok (reprCT ⟨cid, ud⟩) := rfl
